@@ -225,7 +225,10 @@ pub fn check(sc: &Scenario, out: &RunOutput) -> OracleResult {
     }
     // (5) not discarded while the connection lives: a reader that is waiting for more at the end
     // of the run has been handed every byte acknowledged before it started waiting.
-    if !reader_dropped && !reader_err && !reader_eof {
+    // (a packet larger than the whole configured buffer — a sender ignoring the window — can
+    // never be handed over; it blocks the stream, it is not discarded)
+    let oversize = delivered.values().any(|l| *l as i64 > rx_buf);
+    if !reader_dropped && !reader_err && !reader_eof && !oversize {
         if let Some((ts, m)) = pending_read_since {
             let need = bytes_upto(&delivered, m);
             if read_total < need && task_ended.is_none_or(|te| te > ts) {
